@@ -2,6 +2,7 @@
 import os
 
 from harness import common
+from harness import families
 from harness import gen
 from harness import proggen
 from harness import semrun
@@ -17,6 +18,19 @@ def Cases(tier):
     prog, query, feats = gen.Generate(rng, gen.CORE)
     cases.append({'id': 'g%d' % i, 'prog': prog, 'query': query, 'stages': True,
                   'meta': {'features': feats, 'source': 'random'}})
+  # directed families (else-if chains exhaustively over thresholds / value
+  # patterns, repeated functional calls, double negation, bound `in`)
+  n_chain = 24 if tier == 'quick' else 64
+  for k in range(n_chain):
+    prog, query, feats = families.IfChain(rng, k * (64 // n_chain) if
+                                          tier == 'quick' else k)
+    cases.append({'id': 'ic%d' % k, 'prog': prog, 'query': query,
+                  'stages': True, 'meta': {'features': feats}})
+  for k in range(6 if tier == 'quick' else 60):
+    for name, fn in families.SEM_FAMILIES[1:]:
+      prog, query, feats = fn(rng)
+      cases.append({'id': 'sf%d%s' % (k, name), 'prog': prog, 'query': query,
+                    'stages': True, 'meta': {'features': feats}})
   # spec -> code: programs enumerated by TLC from spec/ProgGen.tla
   if tier == 'quick':
     pg, st, gen_, total = proggen.Cases('ProgGen_core_q.cfg', 250, rng, 'pg')
@@ -31,7 +45,8 @@ def Cases(tier):
 
 EXTRA = {}
 
-REQUIRED = ['proggen', 'pg_disjunction', 'pg_in', 'pg_assign', 'pg_dup_fact',
+REQUIRED = ['fam_if_chain', 'fam_repeated_call', 'fam_double_negation',
+            'fam_bound_in_repeated', 'proggen', 'pg_disjunction', 'pg_in', 'pg_assign', 'pg_dup_fact',
             'pcall_repeated', 'disjunction_of_atoms', 'if_chain',
             'named_args_reordered_between_rules',
             'disjunction_repeated_swapped',
